@@ -239,6 +239,7 @@ func (x *faultExec) sweep(k int, twin bool, a []string) string {
 		done := false
 		for rep := 0; rep < k; rep++ {
 			x.fdb.arm(j)
+			lastQueuedTasks = 0
 			out := persistOp(e, a)
 			hit, kind, _ := x.fdb.disarm()
 			if !hit {
@@ -266,6 +267,11 @@ func (x *faultExec) sweep(k int, twin bool, a []string) string {
 				}
 				if d := firstDiff(base, observeAll(e)); d != "" && dirty == "" && single {
 					dirty = fmt.Sprintf("obs@%d:%s:%s", j, kind, d)
+				}
+				// volatile trace of a failed attempt that no query shows: a task handed to the worker although
+				// the operation failed (e.g. PushRemove / PushImport before the Update has committed)
+				if lastQueuedTasks != 0 && dirty == "" {
+					dirty = fmt.Sprintf("task-queued@%d:%s", j, kind)
 				}
 			}
 		}
